@@ -179,6 +179,9 @@ func runC07(r *Run, rng *Rng, thorough bool) {
 						{"profile-other", profKey, nTstr(canonOf(3 - p)), jn, jS(canonOf(3 - p)), "?"},
 						{"other-key-too", otherKey, nTstr(canonOf(3 - p)), jo, jS(canonOf(3 - p)), "?"},
 						{"other-key-null", otherKey, nNull(), jo, jN(), d.Canon},
+						{"null+other-unknown", -1, nil, "", nil, "!unknown"},
+						{"unknown+other-null", -2, nil, "", nil, "!unknown"},
+						{"profile-empty-string", profKey, nTstr(""), jn, jS(""), "!unknown"},
 					}
 					for _, e := range rs.extras {
 						// JSON: the value counts as declared only under the member name of the extension's own profile field
@@ -195,7 +198,19 @@ func runC07(r *Run, rng *Rng, thorough bool) {
 					for _, v := range vs {
 						t := tok.clone()
 						j := doc.clone()
-						if v.cborKey != 0 {
+						switch v.cborKey {
+						case -1: // own profile member null, the other profile's member an unregistered value
+							setKey(t, profKey, nNull())
+							setKey(t, otherKey, nTstr("http://example.com/unregistered"))
+							j.set(jn, jN())
+							j.set(jo, jS("http://example.com/unregistered"))
+						case -2:
+							setKey(t, profKey, nTstr("http://example.com/unregistered"))
+							setKey(t, otherKey, nNull())
+							j.set(jn, jS("http://example.com/unregistered"))
+							j.set(jo, jN())
+						}
+						if v.cborKey != 0 && v.cborKey != -1 && v.cborKey != -2 {
 							if v.val == nil {
 								delKey(t, v.cborKey)
 							} else {
@@ -220,6 +235,21 @@ func runC07(r *Run, rng *Rng, thorough bool) {
 						r.Case(fmt.Sprintf("p%d/json/%s", p, v.class), false, fmt.Sprintf("dispatch-json reg=%s %s", regp, j.Proto()), jres.String())
 						c07Judge(r, rs, p, v.class, v.declared, "cbor", cres, t)
 						c07Judge(r, rs, p, v.class, v.declared, "json", jres, nil)
+						// the register is a Go map: repeat the JSON dispatch to cover its iteration orders
+						for rep := 0; rep < 24; rep++ {
+							again := dispatch(func() (psa.IClaims, error) { return psa.DecodeClaimsFromJSON(append([]byte{}, text...)) })
+							if again.String() != jres.String() {
+								r.Fail("json-dispatch-order", fmt.Sprintf("json %s: outcome differs between calls: %s vs %s", v.class, jres, again))
+								break
+							}
+							if rep%8 == 0 {
+								c07Judge(r, rs, p, v.class, v.declared, "json", again, nil)
+							}
+						}
+						// profile 1 carries its profile claim under -75000: an accepted profile-1 token has none or the profile-1 name there
+						if pv := lookupInt(t, -75000); cres.ok && cres.accepted && cres.typ == "*psatoken.P1Claims" && pv != nil && pv.Kind == kTstr && string(pv.B) != psa.Profile1Name {
+							r.Fail("reports-declared", fmt.Sprintf("cbor %s: accepted as profile 1 although the token's profile claim is %q", v.class, string(pv.B)))
+						}
 					}
 				}
 			}
